@@ -248,6 +248,15 @@ func normEvents(fn *ssa.Function, p Path, dropValidate bool) []string {
 			out = append(out, norm("call "+ev.Callee+"("+strings.Join(as, ",")+")"))
 		}
 	}
+	// resetting a field to a fresh object twice in a row (with nothing but the
+	// dropped validation in between) is the same as doing it once
+	for i := 0; i+3 < len(out); {
+		if out[i] == out[i+2] && out[i+1] == out[i+3] && strings.HasPrefix(out[i], "call "+cNewMsg+"(") && strings.HasPrefix(out[i+1], "store ") && strings.Contains(out[i+1], ":= fresh:") {
+			out = append(out[:i], out[i+2:]...)
+			continue
+		}
+		i++
+	}
 	var rs []string
 	ei := errIndex(fn)
 	for i, a := range p.Rets {
